@@ -60,6 +60,33 @@ CLAIMED = {
              "LU/LDL elimination models.",
         note="float64 as exact reals; np.allclose in the matrix classification read as exact equality; inner sparse LU and "
              "the `solver=` override are contract oracles (op(A) x = b); n <= 3 quick / 4 thorough."),
+    "C05": dict(
+        text="The real solver classes (SolverDiagonal, SolverDenseLU/Cholesky/LDL/QR, SolverSparseLU plumbing, "
+             "DampedJacobi, SOR, CG with orth, Preconditioner, GeometricMultigrid set-up, auto_determine_solver and its "
+             "matrix_is_* tests) executed on matrices defined from free factor symbols of the documented class "
+             "(A := P L U, U^H U, L D L^H, L D L^T, Q R) with b := op(A) x* for free x*; the stubbed LAPACK entry point "
+             "hands back the factors only after z3 proved that they reproduce the matrix it received; the obligation "
+             "solve(b, trans) == x* is decided entry-wise by z3 for N/T/H, real/complex data and 1-D/2-D right-hand sides.",
+        note="float64 as exact reals; n <= 3 quick / 4 thorough; CG only for 1-2 iterations on n = 2 (exactness after n "
+             "steps, restart and zero/converged columns), convergence rates and LAPACK accuracy are outside; multigrid "
+             "interpolation against an independent prolongation on <= 4x4 / 2x2x4 meshes."),
+    "C09": dict(
+        text="FilterConv (padding rules, wide pads, overrides, radius kernels) and DensityFilter executed with symbolic "
+             "densities, kernels, padding constants and radii; every output entry is compared by z3 with an "
+             "independent reference written from the definition (explicit Cartesian loops, per-side extension rules); "
+             "bounds min <= y <= max, preservation of constants and volume preservation are decided as polynomial "
+             "inequalities/identities; int() of a symbolic radius forks the path per kernel width.",
+        note="float64 as exact reals; meshes <= 3x2 / 2x2x2 quick, <= 4x3 / 3x2x2 thorough; D22 (pad wider than the domain "
+             "with different rules on the two sides of an axis) is a known finding confined to the fc-widepad-mixed items."),
+    "C14": dict(
+        text="OverhangFilter: the direction-string parser is searched by CrossHair (z3) over all str of length <= 3 "
+             "(counterexamples replayed; a reachability twin must be refuted); direction vectors with a symbolic positive "
+             "magnitude, the layer sweep with symbolic densities and parameters (p, q, shift, backshift, eps) on 2-D and "
+             "3-D meshes in all 4/6 directions compared entry-wise by z3 with the recursive reference written per element, "
+             "plus mirror/axis-swap equivariance.",
+        note="float64 as exact reals, POW uninterpreted with ground axioms; meshes <= 3x2 and 3x2x2 quick, <= 4x3 / 2x2x3 "
+             "thorough; the len <= 3 CrossHair condition is a refutation search ('Not confirmed' is reported as "
+             "inconclusive, the len <= 1 condition is exhausted); a concrete 820-string enumeration is a cross-check only."),
     "C08": dict(
         text="AssembleGeneral/Stiffness/Mass/Poisson executed with symbolic scaling, element sizes, material data, element "
              "matrices and boundary values; the assembled matrix is compared entry-wise with an independent scatter; "
